@@ -105,7 +105,7 @@ func (fr *Frame) doCall(instr ssa.Instruction, c *ssa.CallCommon, fnv Value, arg
 	}
 	callee, bind := fr.resolveCallee(c, fnv)
 	sig := c.Signature()
-	fr.atCallAsserts(c, callee, pc, st, pos)
+	fr.atCallAsserts(c, callee, args, pc, st, pos)
 	allArgs := args
 	if c.IsInvoke() {
 		allArgs = append([]Value{fnv}, args...)
@@ -1964,7 +1964,7 @@ func (x *X) recordEvent(pc *Term, name string, vals []Value, args []Value) {
 
 // atCallAsserts checks "at <callee>: assert e" clauses of the function under
 // analysis (root frame only) right before the call.
-func (fr *Frame) atCallAsserts(c *ssa.CallCommon, callee *ssa.Function, pc *Term, st *State, pos string) {
+func (fr *Frame) atCallAsserts(c *ssa.CallCommon, callee *ssa.Function, args []Value, pc *Term, st *State, pos string) {
 	x := fr.x
 	if !fr.isRoot || fr.contract == nil || !x.mode.Functional || len(fr.contract.AtCalls) == 0 {
 		return
@@ -1982,6 +1982,9 @@ func (fr *Frame) atCallAsserts(c *ssa.CallCommon, callee *ssa.Function, pc *Term
 		}
 		env := fr.rootEnv(st)
 		env.lookup = func(name string) (SV, bool) { return fr.resolveLocalAt(name, st) }
+		for i, a := range args {
+			env.vars[fmt.Sprintf("arg%d", i)] = svValue(a)
+		}
 		var t *Term
 		if err := safeEval(func() { t = env.Bool(cl.Expr) }); err != nil {
 			panic(stopExec{fmt.Sprintf("%s: at %s: assert %q: %v", shortFuncName(fr.fn), cl.Names[0], cl.Src, err)})
